@@ -29,6 +29,9 @@ CLAIMS = {
  "C19": dict(cat="other", tech="static analysis: abstract interpretation of every reader over a fully symbolic byte stream with path forking (panic reachability with constant-propagation feasibility), construction-site (who-may-construct) rule, parameter-provenance rule for validity checks",
    text="Every Deserializable::read_from (and the inherent ProgramAst/ModuleAst readers) is interpreted with a ByteReader whose every read returns a fresh symbolic value; all syntactic paths are enumerated and a path reaching panic!/unreachable!/expect/unwrap, or a compiler-inserted bounds/overflow check whose condition depends on input bytes, is reported unless constant propagation shows the path contradictory (ledger: one site, with reason). Accepted values re-encode (symbolic round trip of the untrusted-input types). Types with validating constructors (StackOutputs, StackInputs, Kernel, LibraryPath, ProcedureName, LibraryNamespace, ExecutionOptions) are built only in their constructors/Default/Clone, have no public fields, and their readers go through the constructor. StackOutputs::new passes every integer parameter to find_invalid_elements (which compares with the modulus) before construction; try_from_values / with_stack_values convert only with Felt::try_from.",
    note="Trusted: " + TB + "; mirsym, serde model; winter-utils and miden-crypto readers (external) are trusted. Loops over input-sized collections are explored for one iteration; allocations sized by input are listed in the evidence, not judged.", ref="§3 C19"),
+ "C11": dict(cat="other", tech="static analysis: must-pass-through and sibling cross-check rules over MIR (dominators, path counting, argument provenance) plus the lowering extractor for parameter validation paths",
+   text="Callset closure: each of the eight invocation lowerings (exec/call/syscall/procref, local and imported, call by root) registers the call with the right `inlined` constant before building the call block or pushing the root and propagates the error; the AssemblyContext wrappers forward `inlined`; both ModuleContext::register_*_call siblings append the callee's callset on every successful path and insert its root exactly when !inlined; complete_proc / complete_executable propagate upward, into_procedure keeps the callset, into_cb_table inserts every entry or fails with CallSetProcedureNotFound. Each listed invalid construct (undefined local procedure, unknown import, circular modules, duplicate name, call/syscall in a kernel, caller outside, phantom calls, zero divisor immediates, out-of-range parameters and local indexes, export in an executable) has a reachable rejecting path; no compiler-inserted arithmetic check on an instruction parameter runs before its validation; the procedure cache is keyed by root and id with a conflict rejection.",
+   note="Trusted: " + TB + "; lowering extractor. Not decided: equality of programs across compilation histories and library orders.", ref="§3 C11"),
 }
 
 NA = {
